@@ -81,7 +81,8 @@ func TestVerifReplayC03(t *testing.T) {
 		return
 	}
 	if !strings.Contains(os.Getenv("VERIF_REPLAY_OBLIGATION"), "format-matches-args") {
-		fmt.Printf("VERIF-REPLAY no harness for %q\n", os.Getenv("VERIF_REPLAY_OBLIGATION"))
+		// every other C03 / C04 obligation: catalogue of (previous, current) schema pairs, see below
+		verifReplayCatalogue(fn, os.Getenv("VERIF_REPLAY_OBLIGATION"))
 		return
 	}
 	// handleBreakingFieldSameDefault -> FIELD_SAME_DEFAULT
